@@ -56,6 +56,9 @@ type clusterRunner struct {
 	w       *simos.World
 	res     *Result
 	stores  []*simenv.Store // shard-major
+	// seenMature: stores seen mature; forgotMaturity: one of them came back immature (see heal_all)
+	seenMature     map[int]bool
+	forgotMaturity bool
 	net     *simenv.Net
 	client  *bulk.SeqDBClient
 	ing     *search.Ingestor
@@ -128,6 +131,10 @@ func RunCluster(t *testing.T, c *ClusterCase, done func(*Result)) {
 		sort.Strings(res.States)
 		res.DiskStats = w.Stats
 		res.Trace = tail(r.log, 80)
+		if os.Getenv("VERIF_FULLTRACE") != "" {
+			res.Trace = append(append(tail(r.log, 100000), "--- disk ---"), tail(w.Log, 100000)...)
+			res.Trace = append(append(res.Trace, "--- seq-db log ---"), logger.SinkTail()...)
+		}
 		res.NonTrivial = res.Switches > 0 || len(res.States) > 0
 		switch {
 		case len(s.Failures) > 0:
